@@ -14,8 +14,8 @@ func Rand(seed int64) *rand.Rand { return rand.New(rand.NewSource(seed)) }
 // Hash families the reference can verify and go-multihash (with the registered
 // extras) can compute.
 var (
-	CoreHashes  = []uint64{0x12, 0x13, 0x11, 0x56}         // sha2-256, sha2-512, sha1, dbl-sha2-256 (core registry)
-	ExtraHashes = []uint64{0xb220, 0x16}                   // blake2b-256, sha3-256 (registered by the harness)
+	CoreHashes  = []uint64{0x12, 0x13, 0x11, 0x56}                           // sha2-256, sha2-512, sha1, dbl-sha2-256 (core registry)
+	ExtraHashes = []uint64{0xb220, 0x16}                                     // blake2b-256, sha3-256 (registered by the harness)
 	Codecs      = []uint64{0x55, 0x70, 0x71, 0x0129, 0x00, 0x0200, 0x300001} // raw, dag-pb, dag-cbor, dag-json, 0, 2-byte, 4-byte varint codec
 )
 
@@ -38,12 +38,12 @@ func Bytes(r *rand.Rand, n int) []byte {
 
 // BlockOpts steers HonestBlock.
 type BlockOpts struct {
-	CoreOnly      bool // only hash functions of the core registry (for the CLI)
-	NoIdentity    bool
-	NoV0          bool
-	NoTruncated   bool
-	Size          int // -1 = pick
-	MaxSize       int
+	CoreOnly    bool // only hash functions of the core registry (for the CLI)
+	NoIdentity  bool
+	NoV0        bool
+	NoTruncated bool
+	Size        int // -1 = pick
+	MaxSize     int
 }
 
 // PickSize draws a data size: mostly small, sometimes boundary-crossing.
@@ -131,15 +131,15 @@ type Content struct {
 }
 
 type ContentOpts struct {
-	Block        BlockOpts
-	MinBlocks    int
-	MaxBlocks    int
-	MaxRoots     int
-	MinRoots     int
-	Dups         bool // include duplicate blocks, same-multihash-other-codec twins and identity twins
-	Synthetic    bool // CIDs need not be honest (index/store code that never hashes)
-	Boundaries   bool // sometimes include varint-boundary sized sections
-	BigBoundary  bool // allow the 2 MiB boundary
+	Block           BlockOpts
+	MinBlocks       int
+	MaxBlocks       int
+	MaxRoots        int
+	MinRoots        int
+	Dups            bool // include duplicate blocks, same-multihash-other-codec twins and identity twins
+	Synthetic       bool // CIDs need not be honest (index/store code that never hashes)
+	Boundaries      bool // sometimes include varint-boundary sized sections
+	BigBoundary     bool // allow the 2 MiB boundary
 	RootsFromBlocks bool
 }
 
